@@ -145,14 +145,30 @@ func cellVals(v ssa.Value) []ssa.Value {
 
 func ruleNFrame(w *World, r *Report) {
 	r.rule("N-FRAME", "for each axis, the iterator type the builder selects moves its (owned) cursor only with the primitives the axis definition allows, and uses the ones it cannot do without: child {MoveToChild, MoveToNext}; attribute {MoveToNextAttribute}; self {}; parent, ancestor(-or-self) {MoveToParent}; following-sibling {MoveToNext}; preceding-sibling {MoveToPrevious}; descendant(-or-self) within {MoveToChild, MoveToNext, MoveToParent}; following within {MoveToNext, MoveToParent}+descendant; preceding within {MoveToPrevious, MoveToParent}+descendant. For the flat axes a forward-only walk from one input node cannot repeat or reorder nodes")
-	fn := w.axisBuilderFn()
-	si := w.axisSwitch()
-	if fn == nil || si == nil {
-		r.bad("ANCHOR", "N-FRAME", "", "axis dispatch not found")
+	tab, _, err := w.axisTable()
+	if err != nil {
+		r.bad("ANCHOR", "N-FRAME", "", "axis dispatch not found: "+err.Error())
 		return
 	}
 	sel := w.selectMethod()
-	builds := w.axisBuilds(fn)
+	type abT struct {
+		Label  string
+		Type   *QType
+		Fields map[string]bool
+	}
+	var builds []abT
+	seenB := map[string]bool{}
+	for _, e := range tab {
+		if isFoldType(tab, e.Label, e.Type) {
+			continue
+		}
+		k := e.Label + "|" + e.Type.Name()
+		if seenB[k] {
+			continue
+		}
+		seenB[k] = true
+		builds = append(builds, abT{e.Label, e.Type, e.Flags})
+	}
 	n := 0
 	for _, ab := range builds {
 		fr, ok := axisFrames[ab.Label]
@@ -168,9 +184,6 @@ func ruleNFrame(w *World, r *Report) {
 		if !hasPred {
 			continue
 		}
-		if p := ab.Alloc.Pos(); p < si.Stmt.Pos() || p > si.Stmt.End() {
-			continue
-		}
 		n++
 		sfn := ab.Type.Methods[sel]
 		r.FuncsAnalysed[fnName(sfn)] = true
@@ -181,7 +194,7 @@ func ruleNFrame(w *World, r *Report) {
 				// only flags that guard closure creation (a branch in Select proper)
 				if w.branchesOn(sfn, f.Var.Name()) {
 					flagField = f.Var.Name()
-					flagVal = boolConst(ab.Fields[f.Var.Name()])
+					flagVal = ab.Fields[f.Var.Name()]
 				}
 			}
 		}
